@@ -307,8 +307,9 @@ def sampling_rules(chk, repo, clause):
     sub, sup = S('subset'), S('superset')
     want = nf.app('nonzero', nf.app('bitand', nf.app('le', nf.app('amin', sub), sup), nf.app('le', sup, nf.app('amax', sub))))
     rets = returns(paths)
+    want_mask = nf.app('bitand', nf.app('le', nf.app('amin', sub), sup), nf.app('le', sup, nf.app('amax', sub)))
     chk.ob(clause, 'T-comparison', f.key, 'samples of the common grid inside the closed range of the operand',
-           len(rets) == 1 and rets[0].ret == want, fmt(rets[0].ret)[:200] if rets else '', f.loc())
+           len(rets) == 1 and rets[0].ret in (want, want_mask), fmt(rets[0].ret)[:200] if rets else '', f.loc())
     f, paths, _ = analyse(repo, 'radiometry._sampling', config={'method': Const('min')})
     wave = S('wave')
 
@@ -337,6 +338,8 @@ def sampling_rules(chk, repo, clause):
     ok_arr = ok_list = None
     det_arr = det_list = 'path not found'
     for p in returns(paths):
+        if p.ret is None or p.ret == NONE:
+            continue            # neither an array nor a list of arrays: nothing to sample
         listy = any(pol and 'list' in fmt(c) for c, pol, _ in p.conds)
         if not listy:
             r = steps_of(p.ret, wave)
@@ -354,7 +357,8 @@ def sampling_rules(chk, repo, clause):
                 if not any(is_app(x, ('amin', 'min', 'm:min')) or x[0] == 'loop' for x in nf.value_atoms(p.ret)):
                     ok_list, det_list = False, det_list + ', which is not a minimum over the operands'
                 continue
-            inner = a[2][0].single_atom() if isinstance(a[2][0], Poly) else None
+            inner0 = nf.strip_apps(a[2][0], ('copy', 'cast', 'asarray', 'array'))
+            inner = inner0.single_atom() if isinstance(inner0, Poly) else None
             elem = None
             if inner is not None and inner[0] == 'loop':
                 for lp in p.state.loops:
@@ -491,7 +495,7 @@ def bayer_tiling_rule(chk, repo, clause):
 
 def vegaflux_rule(chk, repo, clause):
     f, paths, _ = analyse(repo, 'radiometry.vegaflux', config={'valueunit': Const('photlam'), 'band': Const('V')},
-                          symbolic_globals=True)
+                          symbolic_globals=True, literal_tables=True, inline=['radiometry.Photlam.to'])
     rets = returns(paths)
     ok, det = False, ''
     if len(rets) == 1 and isinstance(rets[0].ret, Tup) and len(rets[0].ret) == 2:
@@ -508,7 +512,7 @@ def vegaflux_rule(chk, repo, clause):
     # other flux units: the photon -> energy conversion needs the wavelength in metres (h*c/lambda)
     for vu, factor in (('wlam', Poly.const(1)), ('flam', Poly.const(Fraction('1e7')) * Poly.const(Fraction('1e-4')))):
         f, paths, _ = analyse(repo, 'radiometry.vegaflux', config={'valueunit': Const(vu), 'band': Const('V')},
-                              symbolic_globals=True, inline=['radiometry.Photlam.to'])
+                              symbolic_globals=True, inline=['radiometry.Photlam.to'], literal_tables=True)
         rets = returns(paths)
         ok2, det2 = None, 'result not understood'
         if len(rets) == 1 and isinstance(rets[0].ret, Tup) and len(rets[0].ret) == 2:
